@@ -24,7 +24,8 @@ CONSTANTS
   Mode,     \* "cancel" | "detached"   (HandlerTaskMode)
   Ids,      \* framework request ids that may be generated
   MaxSteps, \* bound on the handler steps counted per request (model checking)
-  SendKinds \* ways a client may send a request: subset of {"full", "head", "body"}
+  SendKinds,\* ways a client may send a request: subset of {"full", "head", "body"}
+  Resets    \* BOOLEAN: clients may reset single requests (HTTP/2 streams)
 
 VARIABLES
   cst,      \* [Conn -> [client, server]]
@@ -139,18 +140,26 @@ ReqStart(r, id) ==                                                     \* [F] re
   /\ usedIds' = usedIds \cup {id}
   /\ UNCHANGED <<cst, srv, wg>>
 
+\* A request future whose connection has already ended (possible only for a
+\* departed client, see GracefulDone) makes no further progress: it can only
+\* be dropped.
+Progressing == ~srv.gracefulDone
+
 VersionOk(r) ==                                                        \* [F] version_ok
+  /\ Progressing
   /\ rq[r].stage = "started"
   /\ rq' = [rq EXCEPT ![r].stage = "versioned"]
   /\ UNCHANGED <<cst, srv, wg, usedIds>>
 
 RouteOk(r) ==                                                          \* [F] route_ok
+  /\ Progressing
   /\ rq[r].stage = "versioned"
   /\ rq' = [rq EXCEPT ![r].stage = "routed"]
   /\ UNCHANGED <<cst, srv, wg, usedIds>>
 
 Spawn(r) ==                                                            \* [F] spawn
   /\ Mode = "detached"
+  /\ Progressing
   /\ rq[r].stage = "routed"
   /\ rq[r].task = "none"
   /\ rq' = [rq EXCEPT ![r].task = "spawned"]
@@ -286,7 +295,7 @@ CloseReturned ==                                                       \* [D] cl
 Next ==
   \/ \E c \in Conn : ClientConnect(c) \/ ConnectRefused(c) \/ ClientDisconnect(c) \/ Accept(c)
   \/ \E r \in Req, c \in Conn, k \in SendKinds : ClientSend(r, c, k)
-  \/ \E r \in Req : ClientFinish(r) \/ ClientNoResponse(r) \/ ClientReset(r)
+  \/ \E r \in Req : ClientFinish(r) \/ ClientNoResponse(r) \/ (Resets /\ ClientReset(r))
   \/ \E r \in Req, id \in Ids : ReqStart(r, id)
   \/ \E r \in Req : VersionOk(r) \/ RouteOk(r) \/ Spawn(r) \/ ExtractOk(r)
                     \/ HandlerEnter(r) \/ HandlerStep(r) \/ HandlerPanic(r)
